@@ -324,6 +324,7 @@ class ThreadPoolExecutor:
         self.running = 0
         self.shut = False
         self.count = 0
+        self.cancelled = 0
 
     def submit(self, fn, *args, **kwargs):
         if self.shut:
@@ -347,8 +348,18 @@ class ThreadPoolExecutor:
         SCHED.event("submit", name)
         return Future()
 
-    def shutdown(self, wait=True, **k):
+    def shutdown(self, wait=True, *, cancel_futures=False):
         self.shut = True
+        if cancel_futures:
+            # concurrent.futures semantics: work items not yet started are dropped (their futures cancelled)
+            for name in list(self.workq):
+                lt = SCHED.threads.get(name)
+                if lt is not None and not lt.started:
+                    lt.cond = lambda: False
+                    lt.meta["cancelled"] = True
+                    self.cancelled += 1
+                    SCHED.event("task-cancelled", name)
+            self.workq.clear()
         if wait:
             SCHED.park(("pool-shutdown",), cond=lambda: not self.workq and self.running == 0)
 
